@@ -94,13 +94,24 @@ def run_case(case, rec, cid):
                 r2 = d + r
             else:
                 r2 = r - mk_dur(gen.neg_dur(case["d"]))
-            return dict(r2=proj_rec(r2), pts2=_pts(r2, len(pts)), eqback=bool((r + d) - d == r))
+            # the recurrence written with the moved anchor(s): same n and interval
+            from harness.common import TimeRecurrence as _TR, mk_tp as _mk
+            n_ = desc["n"] or None
+            if desc["fmt"] == 1:
+                r3 = _TR(repetitions=n_, start_point=_mk(desc["a"]) + d, end_point=_mk(desc["s"]) + d)
+            elif desc["fmt"] == 3:
+                r3 = _TR(repetitions=n_, start_point=_mk(desc["a"]) + d, duration=mk_dur(desc["d"]))
+            else:
+                r3 = _TR(repetitions=n_, duration=mk_dur(desc["d"]), end_point=_mk(desc["a"]) + d)
+            ids = {}
+            return dict(r2=proj_rec(r2), pts2=_pts(r2, len(pts)), eqback=bool((r + d) - d == r), eqmoved=bool(r2 == r3),
+                        hmoved=ids.setdefault(hash(r2), 0) == ids.setdefault(hash(r3), len(ids)), pts3=_pts(r3, len(pts)))
         st, v = outcome(f)
         if st == "ok":
             rec.ev("Shift", cid, how=how, d=proj_dur(d), r=proj_rec(r), ok=True, cls="", **v)
         else:
             rec.ev("Shift", cid, how=how, d=proj_dur(d), r=proj_rec(r), ok=False, cls=type(v).__name__, r2=proj_rec(r),
-                   pts2=[], eqback=False)
+                   pts2=[], eqback=False, eqmoved=False, hmoved=False, pts3=[])
         return True
     if kind == "eq":
         rnd = random.Random(case["seed"])
